@@ -74,6 +74,9 @@ def dispatch_table(prog):
 # injectivity of the structural hash (shared by C01 / C06 / C13)
 
 _INJECTIVE_CALLS = {'tuple', 'str', 'repr', 'frozenset_of_pairs'}
+# many-to-one by construction: different attribute values give the same key element
+_LOSSY_CALLS = {'round', 'int', 'abs', 'bool', 'len', 'min', 'max', 'sum', 'any', 'all', 'sorted', 'set', 'frozenset', 'type',
+                'np.round', 'np.around', 'np.floor', 'np.ceil', 'np.abs', 'np.sign', 'math.floor', 'math.ceil', 'math.trunc', 'np.isclose'}
 _LOSSY_NODES = (ast.BoolOp, ast.Compare, ast.IfExp)
 
 
@@ -122,6 +125,9 @@ def hash_key_coverage(prog, cls):
                 walk(f.value, depth)
             elif isinstance(f, ast.Name) and f.id in _INJECTIVE_CALLS and len(e.args) == 1:
                 walk(e.args[0], depth)
+            elif (call_name(e) or '') in _LOSSY_CALLS:
+                for a in mentioned(e):
+                    lossy.setdefault(a, e)
             else:
                 for a in mentioned(e):
                     unknown.setdefault(a, e)
